@@ -19,7 +19,9 @@ OOO3 = ("st", (("a", 2, U(8)), ("b", 0, U(8)), ("c", 1, U(8))))
 KINDS12 = [U(1), U(3), U(8), U(13), I(5), I(16), F32, STR, enum_with_max(5), St(U(3), I(6)), Arr(U(4), 2), Opt(U(8)), OOO, Arr(OOO3, 2)]
 KINDS6 = [U(3), U(8), I(5), F32, STR, enum_with_max(2), OOO]
 KINDS5 = [U(3), I(13), enum_with_max(5), Dyn(U(8)), F64]
-IDS = (2, 261, 70009, 4000000014)  # a fixed injection: sparse, above 255 / 65535, order differs from the order mod 256 and mod 65536
+# a fixed ascending injection: sparse, above 255 and 65535, and already the first two (three) ids come in
+# another order when truncated to 8 (16) bits: 258, 513, 65537 -> 2, 1, 1 (mod 256) and 258, 513, 1 (mod 65536)
+IDS = (258, 513, 65537, 4000000014)
 
 
 def bases(tier):
